@@ -39,6 +39,10 @@ class AnnWorld:
 
     def func(self, ps, slot):
         g = {'A%d' % a: absig.AN[denote(slot, a, self.per_function)] for a in (1, 2)}
+        # the defining context is the function's OWN globals: give it the __name__ of a loaded module that binds none of these names
+        # (code exec'd into a namespace, a function kept after its module was re-imported)
+        if self.per_function and slot % 2 == 0:
+            g['__name__'] = 'json'
         return absig.make_func(ps, name='f%d' % slot, extra_globals=g, future=self.future)
 
     def truth(self, ps, slot):
